@@ -340,13 +340,17 @@ func (ef *errflow) regionProblems(f *ssa.Function, S *ssa.BasicBlock, C map[ssa.
 	seen := map[*ssa.BasicBlock]bool{}
 	// values constructed inside the region count as fresh errors
 	inRegion := func(b *ssa.BasicBlock) bool { return b == S || S.Dominates(b) }
-	var walk func(b *ssa.BasicBlock, rolledBack bool)
-	walk = func(b *ssa.BasicBlock, rolledBack bool) {
+	var walk func(from, b *ssa.BasicBlock, rolledBack bool)
+	walk = func(from, b *ssa.BasicBlock, rolledBack bool) {
 		if seen[b] {
 			return
 		}
 		if !inRegion(b) {
 			// rejoin
+			if from != nil && errIdx >= 0 && ef.mergedReturn(from, b, errIdx, C, S) {
+				idioms["I1"] = true // `failed = err; break` ... `return failed`: the error leaves through a merged return
+				return
+			}
 			if f == ef.sync {
 				if msg := ef.retryOK(f, b, rolledBack); msg == "" {
 					idioms["I3"] = true
@@ -408,11 +412,60 @@ func (ef *errflow) regionProblems(f *ssa.Function, S *ssa.BasicBlock, C map[ssa.
 				idioms["I4"] = true
 				continue // tolerated sentinel path
 			}
-			walk(s, rolledBack)
+			walk(b, s, rolledBack)
 		}
 	}
-	walk(S, false)
+	walk(nil, S, false)
 	return problems
+}
+
+// mergedReturn: the edge from->b leaves the error region for a block that does nothing but return, and the error
+// result returned is a phi whose value on that edge is the error (or one made from it in the region).
+func (ef *errflow) mergedReturn(from, b *ssa.BasicBlock, errIdx int, C map[ssa.Value]bool, S *ssa.BasicBlock) bool {
+	cur, prev := b, from
+	var edgeVal = map[*ssa.Phi]ssa.Value{}
+	for hop := 0; hop < 4; hop++ {
+		idx := -1
+		for i, p := range cur.Preds {
+			if p == prev {
+				idx = i
+			}
+		}
+		for _, ins := range cur.Instrs {
+			switch x := ins.(type) {
+			case *ssa.Phi:
+				if idx >= 0 {
+					v := x.Edges[idx]
+					if ph, ok := v.(*ssa.Phi); ok {
+						if ev, ok := edgeVal[ph]; ok {
+							v = ev
+						}
+					}
+					edgeVal[x] = v
+				}
+			case *ssa.DebugRef, *ssa.RunDefers:
+			case *ssa.Return:
+				op := resolveSpill(x.Results[errIdx])
+				if ph, ok := op.(*ssa.Phi); ok {
+					if v, ok := edgeVal[ph]; ok {
+						switch ef.classifyRet(v, C, S) {
+						case "carrier", "fresh", "sentinel":
+							return true
+						}
+					}
+				}
+				return false
+			case *ssa.Jump:
+			default:
+				return false // the merged block does more than return
+			}
+		}
+		if len(cur.Succs) != 1 {
+			return false
+		}
+		prev, cur = cur, cur.Succs[0]
+	}
+	return false
 }
 
 func firstPosInstr(b *ssa.BasicBlock) ssa.Instruction {
@@ -733,8 +786,14 @@ func (ef *errflow) untestedPath(e ssa.Value, C map[ssa.Value]bool, testBlocks ma
 		}
 		seen := map[*ssa.BasicBlock]bool{}
 		stack := []*ssa.BasicBlock{}
-		for _, sc := range start.Succs {
-			stack = append(stack, sc)
+		{
+			eq := sentinelEqSucc(start, C)
+			for _, sc := range start.Succs {
+				if sc == eq && eq != nil {
+					continue
+				}
+				stack = append(stack, sc)
+			}
 		}
 		for len(stack) > 0 {
 			b := stack[len(stack)-1]
@@ -762,8 +821,16 @@ func (ef *errflow) untestedPath(e ssa.Value, C map[ssa.Value]bool, testBlocks ma
 			if lost {
 				return fmt.Sprintf("a return at block %d (%s) is reachable from %s without the error having been tested", b.Index, ef.c.ipos(firstPosInstr(b)), ef.c.ipos(ins))
 			}
-			for _, sc := range b.Succs {
-				stack = append(stack, sc)
+			{
+				// `if err == ErrTolerated {...} else if err != nil { return err }`: on the equal edge the value is known
+				// (the tolerated sentinel, idiom I4); only the other edge still has to meet a nil test
+				eq := sentinelEqSucc(b, C)
+				for _, sc := range b.Succs {
+					if sc == eq && eq != nil {
+						continue
+					}
+					stack = append(stack, sc)
+				}
 			}
 		next:
 		}
